@@ -90,9 +90,9 @@ Section Construct.
   Lemma cid_ok_push s c x : Rank s -> live s x -> cid_ok H ct s x -> cid_ok H ct (push s c) x.
   Proof.
     intros HK Hl E. unfold cid_ok, live in *. rewrite cellD_push_ne by lia. rewrite E. symmetry.
-    apply tree_cid_local.
-    - intros b Hb. rewrite cellD_push_ne by lia. split; reflexivity.
-    - intros b k _. apply HK.
+    apply tree_cid_reach_local.
+    - exact HK.
+    - intros y Hy. apply (reach_live _ _ _ HK Hl) in Hy. unfold live in Hy. rewrite cellD_push_ne by lia. split; reflexivity.
     - unfold fuel_of. rewrite heap_len_push. lia.
     - unfold fuel_of. lia.
   Qed.
@@ -190,11 +190,15 @@ Section Construct.
       assert (GI1 : ids_apart (fun x => detached s1 x = true) s1 n).
       { intros d d' R1 R2 Hne Hd'.
         assert (Hlt : d' < n).
-        { assert (A := reach_le _ _ _ HK1 R1). assert (B := reach_le _ _ _ HK1 R2). lia. }
+        { assert (A := reach_live _ _ _ HK1 Hln (reach_trans _ _ _ _ R1 R2)). unfold live, s1 in A.
+          rewrite heap_len_push in A. fold n in A.
+          assert (d' <> n); [|lia]. intros ->. apply Hne. eapply reach_antisym; eassumption. }
         assert (GI' := ids_apart_skel _ _ _ _ SK GI). apply GI'; try assumption.
         cbv beta. rewrite <- (push_detached_old s c1 d') by (fold n; lia). exact Hd'. }
       assert (GC1 : forall x, reach s1 n x -> x <> n -> detached s1 x = true -> cid_ok H ct s1 x).
-      { intros x Hr Hne Hd. assert (Hlt : x < n) by (assert (A := reach_le _ _ _ HK1 Hr); lia).
+      { intros x Hr Hne Hd.
+        assert (Hlt : x < n).
+        { assert (A := reach_live _ _ _ HK1 Hln Hr). unfold live, s1 in A. rewrite heap_len_push in A. fold n in A. lia. }
         apply cid_ok_push; [exact HK0 | exact Hlt|]. apply GC; [|exact Hne|].
         - eapply skel_reach; [apply skel_sym; exact SK | exact Hr].
         - rewrite <- (push_detached_old s c1 x) by (fold n; lia). exact Hd. }
@@ -215,8 +219,8 @@ Section Construct.
           intros k Hk. destruct HS2 as [HR2 [_ [_ HL2]]]. destruct (HL2 n Hl Ha) as [Hc _].
           apply in_skids in Hk. destruct Hk as [f [i Hk]]. destruct (Hc k f i Hk) as [Hka _].
           assert (Hkk : In k (skids s2 n)) by (apply in_skids; eauto).
-          assert (Hlt := HK2 _ _ Hkk).
-          apply HC2; [unfold live in *; lia | exact Hka | lia].
+          apply HC2; [eapply rank_kid_live; eassumption | exact Hka |].
+          eapply reach_kid_ne; [exact HK2 | exact Hkk | apply reach_refl].
         * apply cid_ok_set_cid_ne; [exact Hne | apply HC2; assumption].
       + intros b Hl Ha. unfold attached. rewrite (cf_detached _ _ CF). apply Hfwd. apply Hatt1; assumption.
       + intros _. unfold attached. rewrite (cf_detached _ _ CF). exact Han.
